@@ -101,7 +101,7 @@ Proof.
   destruct (h_op h =? op_clear); [inversion H; constructor|].
   destruct (h_op h =? op_store).
   - unfold srv_store in H.
-    destruct (negb ((h_u2 h + h_u3 h + h_u4 h) mod W32 =? h_size h) || (h_u2 h =? 0)); [inversion H; constructor|].
+    destruct (negb (h_u2 h + h_u3 h + h_u4 h =? h_size h) || (h_u2 h =? 0)); [inversion H; constructor|].
     destruct (load_triggers [] (take (h_u4 h) (drop (h_u2 h + h_u3 h) p))); inversion H; constructor.
   - destruct (h_op h =? op_stats).
     + destruct (c_stats c). inversion H. constructor.
